@@ -38,6 +38,13 @@ def analyzeFullLine (toks : List String) : String :=
       | none => "bad-request"
   | [] => "bad-request"
 
+/-- `inrange` request: is this parameter vector (as produced by the code's estimator) inside the Lean
+    predicate `EstimatorRange` that the theorems of C02 / C08 quantify over? -/
+def inRangeLine (toks : List String) : String :=
+  match (toks.mapM String.toNat?).bind paramsOfVec with
+  | some p => if decide (EstimatorRange p) then "yes" else "no"
+  | none => "bad-request"
+
 /-- `estimate` request: the front part of the parameter estimator -/
 def estimateLine (d : List UInt8) : String :=
   outcome (do
